@@ -120,6 +120,13 @@ struct HashScramble { // order by hash disagrees with order by key: 0->5, 1->3, 
   }
 };
 
+struct HashThreeOne { // with two buckets: keys 0, 1, 2 share bucket 0 (in key order), key 3 is alone in bucket 1
+  std::size_t operator()(int k) const {
+    static const std::size_t h[4] = {0, 2, 4, 1};
+    return h[k & 3];
+  }
+};
+
 // adapters -------------------------------------------------------------------------------------------
 template <class S>
 struct SetAdapter {
@@ -337,17 +344,31 @@ template <class C, bool Sorted>
 void iter_test() {
   set_op_names(kItOps, 8);
   const int fixed = (int)opt("fixed", 0);
-  const int U = fixed ? 3 : (int)opt("updaters", 1), m = fixed ? 2 : (int)opt("m", 2), nkeys = fixed ? 4 : (int)opt("keys", 3), L = (int)opt("steps", 4);
-  const int prefill = fixed ? 0xd : (int)opt("prefill", -1) >= 0 ? (int)opt("prefill", 0) : 1 + choose((1 << nkeys) - 1);
+  const int U = fixed == 1 ? 3 : fixed == 2 ? 2 : (int)opt("updaters", 1), m = fixed == 1 ? 2 : fixed == 2 ? 1 : (int)opt("m", 2),
+            nkeys = fixed ? 4 : (int)opt("keys", 3), L = (int)opt("steps", 4);
+  const int prefill = fixed == 2 ? 0xf : fixed ? 0xd : (int)opt("prefill", -1) >= 0 ? (int)opt("prefill", 0) : 1 + choose((1 << nkeys) - 1);
   const bool allow_erase_it = opt("erase_it", 1) != 0;
   const bool seq_side_ops = U == 0;
+  const bool nocopy = opt("nocopy", 0) != 0;
   static int uops[MAXT][8], ukeys[MAXT][8];
   for (int t = 0; t < U && !fixed; t++)
     for (int i = 0; i < m; i++) {
       uops[t][i] = choose(2); // emplace / erase
       ukeys[t][i] = choose(nkeys);
     }
-  if (fixed) {
+  if (fixed == 2) {
+    // adversarial family "erase(iterator) loses its splice and the list behind it shrinks during the re-scan" (seed C09d):
+    // all four keys present (with hash HashThreeOne and two buckets: 0 -> 1 -> 2 in bucket 0, 3 in bucket 1), two updaters
+    // erase one key each (all pairs enumerated): e.g. the traverser stands on 1, one updater erases 0 (the iterator's prev
+    // pointer goes stale), erase(iterator) marks 1 and re-scans, the other updater erases 2 in the meantime - the
+    // iterator must still move on to bucket 1 and yield 3
+    for (int t = 0; t < 2; t++) {
+      uops[t][0] = I_ERASE;
+      ukeys[t][0] = choose(nkeys);
+    }
+    if (ukeys[0][0] >= ukeys[1][0]) prune();
+  }
+  if (fixed == 1) {
     // adversarial family "the list changes under a re-scan that starts behind the head" (seed C09c): elements {0,2,3};
     // updater 1 inserts 1 and erases 2 (the traverser's position), updater 2 erases 1 (the node a re-scan has walked
     // past), updater 3 erases 0 (the node the iterator's prev pointer points into).  Updaters that run to completion
@@ -390,6 +411,7 @@ void iter_test() {
           upd(I_EMPLACE, side - nkeys - 1);
       }
       int act = choose(allow_erase_it ? 3 : 2);
+      if (nocopy && act == 1) prune(); // --opt nocopy=1: the traverser only advances or erases
       if (act == 0) {
         ++it;
       } else if (act == 1) { // continue on a copy, the original is destroyed first
@@ -705,6 +727,8 @@ REGITSET("debra", rec::DEBRA);
 REGITSET("stamp", rec::STAMP);
 REGITSET("lfrc", rec::LFRC);
 #define REGITMAP(name, R, B, Memo, H) XMC_TEST_FN("imap_" name, (&iter_test<MAP<R, B, Memo, H>, false>), "map iterator, " name)
+REGITMAP("b2_31_hp", rec::HPs<8>, 2, false, HashThreeOne);
+REGITMAP("b2_31_memo_ebr", rec::EBR, 2, true, HashThreeOne);
 REGITMAP("b1_hp", rec::HPs<8>, 1, false, HashIdentity);
 REGITMAP("b1_memo_hp", rec::HPs<8>, 1, true, HashIdentity);
 REGITMAP("b1_memo_scr_hp", rec::HPs<8>, 1, true, HashScramble);
